@@ -68,6 +68,22 @@ class FalsyUserErr(UserErr):
         return 0
 
 
+class FrozenUserErr(UserErr):
+    """A user exception that rejects attribute assignment once constructed (like an exception declared as a
+    frozen dataclass, or one with __slots__ and no __dict__)."""
+
+    def __init__(self, tag):
+        Exception.__init__(self, tag)
+        object.__setattr__(self, "tag", tag)
+
+    def __setattr__(self, name, value):
+        if name.startswith("__") and name.endswith("__"):
+            # the interpreter's own bookkeeping (__traceback__, __context__, __cause__ ...) stays assignable,
+            # as for an exception class with __slots__ = ()
+            return Exception.__setattr__(self, name, value)
+        raise AttributeError("cannot assign to field %r" % (name,))
+
+
 class UserBaseErr(BaseException):
     def __init__(self, tag):
         BaseException.__init__(self, tag)
@@ -82,6 +98,8 @@ def make_user_exc(cls, tag):
         return UserBaseErr(tag)
     if cls == "falsy":
         return FalsyUserErr(tag)
+    if cls == "frozen":
+        return FrozenUserErr(tag)
     return UserErr(tag)
 
 
